@@ -214,6 +214,51 @@ theorem eq_one_not_far (s : Bool) (m : Nat) (e : Int) (h : eqNum (.fin s m e) on
     simp at h ⊢ <;> omega
 
 
+def IsDouble : FV → Prop
+  | .fin _ m _ => m < 2^53
+  | _ => True
+
+theorem le_fin (s t : Bool) (m n : Nat) (e f : Int) :
+    le (.fin s m e) (.fin t n f) = decide (alignInt s m e (if e ≤ f then e else f) ≤ alignInt t n f (if e ≤ f then e else f)) := by
+  have h1 := lt_fin s t m n e f
+  have h2 := eqNum_fin s t m n e f
+  simp only [le, lt, eqNum] at *
+  rw [h1, h2]
+  generalize alignInt s m e (if e ≤ f then e else f) = A
+  generalize alignInt t n f (if e ≤ f then e else f) = B
+  by_cases h : A < B <;> by_cases h' : A = B <;> simp [h, h'] <;> omega
+
+theorem isOddInt_eq (s : Bool) (m : Nat) (e : Int) (hm : m < 2^53) :
+    isOddInt (.fin s m e) = Spec.isOddInteger (.fin s m e) := by
+  simp only [isOddInt, Spec.isOddInteger, le_fin, alignInt, Bool.false_eq_true, if_false, isIntegral, truncAbs]
+  by_cases he : e ≥ 0
+  · have hk : (if (0:Int) ≤ e then 0 else e) = 0 := by simp [he]
+    simp only [hk, he, if_true, Int.sub_zero, Int.toNat_zero, Nat.pow_zero, Nat.mul_one, Bool.true_and]
+    by_cases hbig : ((2^53 : Nat) : Int) ≤ ((m * 2 ^ e.toNat : Nat) : Int)
+    · simp only [hbig, decide_true, if_true]
+      cases hn : e.toNat with
+      | zero => rw [hn] at hbig; simp at hbig; omega
+      | succ n =>
+        have : m * 2 ^ (n + 1) = 2 * (m * 2 ^ n) := by rw [Nat.pow_succ]; ac_rfl
+        rw [this]; simp
+    · simp only [hbig, decide_false, Bool.false_eq_true, if_false]
+  · have hk : (if (0:Int) ≤ e then 0 else e) = e := by simp; omega
+    have he' : ¬ (0 ≤ e) := by omega
+    simp only [hk, he, he', if_false, Int.sub_self, Int.toNat_zero, Nat.pow_zero, Nat.mul_one]
+    have hp : 1 ≤ 2 ^ ((0:Int) - e).toNat := Nat.pow_pos (by decide)
+    have : ¬ (((2^53 * 2 ^ ((0:Int) - e).toNat : Nat) : Int) ≤ ((m : Nat) : Int)) := by
+      have : 2^53 * 1 ≤ 2^53 * 2 ^ ((0:Int) - e).toNat := Nat.mul_le_mul_left _ hp
+      omega
+    simp only [this, decide_false, Bool.false_eq_true, if_false]
+
+@[simp] theorem eqNum_nan_l (x : FV) : eqNum .nan x = false := by simp [eqNum, cmpReal]
+@[simp] theorem eqNum_nan_r (x : FV) : eqNum x .nan = false := by cases x <;> simp [eqNum, cmpReal]
+@[simp] theorem eqNum_inf_fin (s t : Bool) (m : Nat) (e : Int) : eqNum (.inf s) (.fin t m e) = false := by
+  cases s <;> simp [eqNum, cmpReal]
+@[simp] theorem eqNum_fin_inf (s t : Bool) (m : Nat) (e : Int) : eqNum (.fin t m e) (.inf s) = false := by
+  cases s <;> simp [eqNum, cmpReal]
+
+
 /-! ## strings -/
 
 theorem hexUpper_facts : ∀ n, n < 16 → hexUpper n ≠ 117 ∧ hexUpper n ≠ 37 ∧ isHex (hexUpper n) = true ∧ unhex (hexUpper n) = n ∧ hexUpper n = Spec.hexChar n ∧ Spec.hexDigit? (hexUpper n) = some n := by
